@@ -4,7 +4,7 @@
 From Verif Require Import Lib.Base Lib.Dyadic Lib.Utf8 Model.Printf Proofs.PrintfSpec Proofs.PrintfBase.
 
 (* the formatter state doPrintf has built corresponds to the resolved C specification *)
-Definition st_matches (f : fst) (r : rspec) : Prop :=
+Definition st_matches (f : fmts) (r : rspec) : Prop :=
   wid f = r_width r /\ (widP f = false -> r_width r = 0) /\ 0 <= r_width r /\
   fminus f = r_minus r /\ fplus f = r_plus r /\ fsharp f = r_sharp r /\ fspace f = r_space r /\
   (r_minus r = false -> fzero f = r_zero r) /\
